@@ -120,7 +120,10 @@ def gen_cases(tier, seed):
         if cls in ("no-source",) and dstate == "absent":
             pass
         drv = [] if cls == "bad-driver" else ["--driver", driver]
-        args = drv + ["-w", str(r.choice([1, 4]))] + opts + srcs + [dest]
+        noise = r.choice([[], [], [], ["--fsync"], ["--backup", "numbered"], ["--no-perms"], ["-L"], ["--gitignore"], ["--no-progress"], ["--reflink", "never"]])
+        if cls in ("bad-backup", "bad-reflink") and noise and noise[0] in ("--backup", "--reflink"):
+            noise = []
+        args = drv + ["-w", str(r.choice([1, 4]))] + opts + noise + srcs + [dest]
         yield {"spec": spec, "pre": pre, "args": args, "driver": driver, "cls": cls, "pos": pos if cls in ("missing-source", "dir-without-r", "dir-onto-file-mapped", "bad-glob") else -1,
                "nsrc": len(srcs), "dstate": dstate, "fs": "ext4"}
 
